@@ -36,6 +36,7 @@ def handle (op : String) (args : Json) : Except String Json :=
   | "c15.getstate" => LK.Driver.C16.getstateOp args
   | "c16.run" => LK.Driver.C16.run args
   | "c11.chunk" => LK.Driver.Num.c11Chunk args
+  | "c08.pop" => LK.Driver.Num.c08Pop args
   | "c08.bias" => LK.Driver.Num.c08Bias args
   | "c09.item_score" => LK.Driver.Num.c09Item args
   | "c09.user_score" => LK.Driver.Num.c09User args
